@@ -720,6 +720,30 @@ def gen_round6(rng):
     return out
 
 
+def gen_round7(rng):
+    """a close-delimited HTTP/1.0 answer of some MB with request bytes still unread behind it (the close must not cut it);
+    response header blocks the client's reader refuses"""
+    out = []
+    h2 = b"GET /b HTTP/1.1\r\nHost: example.test\r\n\r\n"
+    second = hexs(h2) + " - cl - " + plan(200, [], "t", gspec(rng, 4, 2))
+    n = rng.choice([2000000, 2500000, 3000000])
+    first = b"GET /w HTTP/1.0\r\nHost: example.test\r\nConnection: keep-alive\r\n\r\n"
+    out.append("raw p 2 %s - cl - %s %s" % (hexs(first), plan(200, [], "w", gspec(rng, n, 0), "100000"), second))
+    post = b"POST /big HTTP/1.0\r\nHost: example.test\r\nContent-Length: 5\r\n\r\n"
+    out.append("raw s 1 %s x68656c6c6f0d0a cl - %s" % (hexs(post), plan(200, [], "w", gspec(rng, n, 0), "100000")))
+    # a response the client must not take for a success
+    bad = rng.choice([b"Bad Name: v", b": v", b"Content-Length : 5", b"nocolon", b"X\x01: v"])
+    hs = [b"X-A: 1", bad, b"X-Z: 3", b"Content-Length: 5"]
+    if rng.random() < 0.3:
+        hs = [b" X-First: continuation of nothing"] + hs[:1] + hs[2:]
+    head = b"HTTP/1.1 200 OK\r\n" + b"\r\n".join(hs) + b"\r\n\r\n"
+    out.append("cread %s x68656c6c6f cl %s %s" % (hexs(head), cuts_str(rcuts(rng, len(head))), rng.choice("ck")))
+    interim = b"HTTP/1.1 100 Continue\r\n\r\n"
+    out.append("cread %s x68656c6c6f cl - c" % hexs(interim + head))
+    out.append("xchg " + req(b"GET", b"/bad", "SF", [], "n") + " " + plan(200, [(b"X-A", b"1"), (rng.choice([b"X Y", b"X\tY"]), b"2"), (b"X-Z", b"3")], "b", "x68656c6c6f"))
+    return out
+
+
 def gen_expect(rng):
     """Expect: 100-continue: the server's interim answer must not be taken for the response"""
     out = []
@@ -844,6 +868,8 @@ def gen(rng, tier):
         cases += [[l] for l in gen_chunked_put(rng)]
         cases += [[l] for l in gen_round5(rng)]
         cases += [[l] for l in gen_round6(rng)]
+    for _ in range(2 if quick else 12):
+        cases += [[l] for l in gen_round7(rng)]
     cases += gen_long_lines(rng)
     for _ in range(4 if quick else 40):
         cases.append(gen_upload(rng))
@@ -1043,9 +1069,13 @@ LEVEL_NOTE = ("Trusted: Lean kernel; the regex translator of the two block-size 
               "model, serveStep): chunk-size lines of 9 digits are generated (framing flag q) and compared; Content-Length with a sign, "
               "other characters or more than 10 digits and chunk-size lines with a sign are not generated here (C09 does). Hypotheses of the theorems: as stated above; user headers name neither Content-Length nor "
               "Transfer-Encoding; sizes below 2^31 (int). Deviation of asl recorded, not a defect of this property as worded: truncated "
-              "requests are dropped. Known findings: range-end-zero, chunked-stream-not-terminated. Twenty-seven defects of this property were "
-              "repaired (fixed: lines); twenty-two of them were found by audits / defect hunts, not by this check, and the check was "
-              "extended until it catches each on the pre-fix tree with a concrete replay (review of the fifth round's repairs: put(File) "
+              "requests are dropped. Known findings: range-end-zero, chunked-stream-not-terminated. Twenty-nine defects of this property were "
+              "repaired (fixed: lines); twenty-four of them were found by audits / defect hunts, not by this check, and the check was "
+              "extended until it catches each on the pre-fix tree with a concrete replay (seventh round: the close behind an HTTP/1.0 "
+              "answer written in pieces reset the connection and cut the body when request bytes were unread — 2 to 3 MB answers to "
+              "pipelined / CR-LF-trailed HTTP/1.0 requests in every quick run, compared byte for byte (length and digest); a response "
+              "header block the client's reader refuses came back as 200 with an empty body — canned responses and handler headers "
+              "with such lines, refused_headers_no_response; review of the fifth round's repairs: put(File) "
               "after the headers were out never ended the library's own chunks — plan kind F; 204/304 and HTTP/1.0 answers written "
               "in pieces got chunk framing — such statuses and HTTP/1.0 raw peers generated, the raw peer reads a close-delimited "
               "message to the end of the connection; put() + write() by the handler sent the body twice — plan kind B, each with a "
@@ -1070,7 +1100,8 @@ LEVEL_NOTE = ("Trusted: Lean kernel; the regex translator of the two block-size 
               "of xchg now does); a header with an empty value was dropped by the reader (the model had the same "
               "setHeader and the generator produced no empty values). The model follows C09's repairs of the shared reader "
               "(obs-fold 350c8ee, Content-Length 00 d626376, Transfer-Encoding compared case-insensitively / last coding 7dcf721, "
-              "chunk-size line validation 4dbedbe, CRLF required after chunk data d0ace7d, a field name that is no token (blank or tab before the colon, empty, control character) ends the header block 9bf376e "
+              "chunk-size line validation 4dbedbe, CRLF required after chunk data d0ace7d, a field name that is no token (blank or tab before the colon, empty, control character) ends the header block 9bf376e, "
+              "as does a first line that starts with a blank c2e6d14 "
               "(WFName now asks for bytes above 0x20 other than DEL), a request whose transfer coding does not end in chunked is refused 4dff910 (hypothesis "
               "CodingOk of wire_request_exact: a coding, if named, ends in chunked), no handler call once the reader gave the "
               "connection up 5314fb5 — the last one was missing in the model until the q framing flag produced such input).")
@@ -1163,6 +1194,8 @@ def _ref_xchg(t):
         return _ref_redirect_rel(method, target, flags, rh, rk, rbody, code0, ph, pargs)
     if rk == "j" or pk in ("j", "r", "S") or method == b"OPTIONS":
         return None
+    if any(not re.fullmatch(rb"[\x21-\x39\x3b-\x7e]+", n) for n, _ in list(rh) + list(ph)):
+        return None                      # a field name that is no token: outside the property's quantifier (asl refuses the block)
     if rk == "u" and any(cap(n) == b"Content-Type" for n, _ in rh):
         return None
     if flags[1] == "F" and code0 in (301, 302, 307, 308) and any(cap(n) == b"Location" and v for n, v in ph):
@@ -1310,6 +1343,9 @@ def _ref_cread(t):
     fr = t[3]
     if "z" in fr or "q" in fr:
         return None              # q: 9-digit chunk sizes, legal hex but refused by asl's reader (documented)
+    for line in head.split(b"\r\n")[1:]:
+        if line and not re.match(rb"[\x21-\x39\x3b-\x7e]+:", line):
+            return None              # a field name that is no token, a line without colon: asl refuses the block (code 0), no opinion here
     stream = _frame(head, body, fr)
     try:
         r = http.client.HTTPResponse(_FakeSock(stream))
